@@ -18,6 +18,10 @@ def gen(rnd, tier):
         ops = [{"op": "resize", "w": w, "h": h}] + ([{"op": "enteralt"}] if alt else []) + \
               [{"op": "write", "s": R.join_view(a)}, {"op": "flush"}, {"op": "write", "s": R.join_view(b)}, {"op": "flush"},
                {"op": "write", "s": R.join_view(b)}, {"op": "flush"}, {"op": "write", "s": R.join_view(b)}, {"op": "write", "s": R.join_view(b)}, {"op": "flush"}]
+        if rnd.random() < 0.4:
+            # unmanaged output (Println) arriving while a frame is pending: still nothing before the tick
+            k = [i for i, o in enumerate(ops) if o["op"] == "write"][rnd.choice([0, 1])]
+            ops = ops[:k + 1] + [{"op": "print", "s": [76, 48 + rnd.randint(0, 9)]}] + ops[k + 1:]
         cases.append({"w0": w, "h0": h, "history": [], "used": 0, "ops": ops, "pair": (a, b), "alt": alt})
     return cases
 
@@ -46,13 +50,16 @@ def run(res, tier, seed):
             return None
         outs = out["outs"]
         flushes = [i for i, o in enumerate(case["ops"]) if o["op"] == "flush"]
-        for k in flushes[2:]:
+        has_print = any(o["op"] == "print" for o in case["ops"])
+        for k in ([] if has_print else flushes[2:]):
             if len(outs[k]) != 0:
                 return ("C19:not-silent", "rendering a view identical to the one on screen wrote %d bytes" % len(outs[k]))
-        writes = [i for i, o in enumerate(case["ops"]) if o["op"] in ("write", "resize")]
+        writes = [i for i, o in enumerate(case["ops"]) if o["op"] in ("write", "resize", "print")]
         for k in writes:
             if len(outs[k]) != 0:
                 return ("C19:write-emits", "write()/resize produced output outside a frame tick (%d bytes)" % len(outs[k]))
+        if has_print:
+            return None      # (printed lines are extra output: the cost bound below is about a plain re-render)
         # cost of the second flush against the Spec bound (computed here from the same closed formula as Spec/Economy.v)
         a, b = case["pair"]
         w, h = case["w0"], case["h0"]
